@@ -78,6 +78,25 @@ func locs(n, per int) []int {
 	return l
 }
 
+// renameSlices gives the i-th configured slice the i-th name, everywhere the configuration names slices.
+func renameSlices(ns *models.Namespace, names []string) {
+	m := map[string]string{}
+	for i, sl := range ns.Slices {
+		m[sl.Name] = names[i]
+		sl.Name = names[i]
+	}
+	if n, ok := m[ns.DefaultSlice]; ok {
+		ns.DefaultSlice = n
+	}
+	for _, sh := range ns.ShardRules {
+		for i, s := range sh.Slices {
+			if n, ok := m[s]; ok {
+				sh.Slices[i] = n
+			}
+		}
+	}
+}
+
 // drawRule picks the rule type and layout of the run's sharded table with a boundary-rich key universe.
 func drawRule(tp *simkit.Tape) *dataRule {
 	nS := tp.Range(1, 3)
@@ -227,6 +246,7 @@ type dataWorld struct {
 	// breakInsertOn: backend address whose connection is reset when the next INSERT arrives there (one shot)
 	breakInsertOn string
 	faulted       bool
+	brokenRewrite string          // a backend could not resolve a column reference of a statement the proxy sent it (last occurrence)
 	child         string          // linked child table of the sharded table ("" = none)
 	childKey      string          // its sharding column
 	sessDB        string          // the session's current database
@@ -368,6 +388,10 @@ func (d *dataWorld) exec(c *mysim.Conn, st *mysim.Stmt) *mysim.Reply {
 	}
 	res, err := s.ExecNode(node, c.DB)
 	if err != nil {
+		if strings.Contains(err.Error(), "in column reference") {
+			// the statement as the proxy wrote it names a table the backend cannot resolve (MySQL: error 1054)
+			d.brokenRewrite = c.B.Addr + " received " + strconv.Quote(st.SQL) + ": " + err.Error()
+		}
 		code := uint16(1105)
 		if strings.Contains(err.Error(), "Duplicate entry") {
 			code = 1062
@@ -614,6 +638,13 @@ func runData(r *simkit.Run, prop string) {
 		}
 		ns.ShardRules = append(ns.ShardRules, &models.Shard{DB: rule.db, Table: d.child, Type: "linked", ParentTable: rule.table, Key: d.childKey})
 	}
+	sliceNaming := "slice-N"
+	if rule.nSlices > 1 && tp.Chance(1, 3) {
+		// slice names whose configuration order is not their alphabetical order
+		names := [][]string{{"west", "east", "north"}, {"slice-2", "slice-10", "slice-1"}}[tp.Choose(2)]
+		sliceNaming = strings.Join(names[:rule.nSlices], ",")
+		renameSlices(ns, names)
+	}
 	w, err := NewWorld(r, map[string]*models.Namespace{"ns1": ns}, WorldOpts{})
 	if err != nil {
 		r.Failf("harness", "NewWorld with rule %+v: %v", *rule.shard, err)
@@ -637,7 +668,7 @@ func runData(r *simkit.Run, prop string) {
 		return nil
 	}
 	r.SetSiteDensity(0, 0)
-	cfg := fmt.Sprintf("rule=%s slices=%d perSlice=%d global=%v child=%v/%s", rule.typ, rule.nSlices, rule.perSlice, d.global != "", d.child != "", d.childKey)
+	cfg := fmt.Sprintf("rule=%s slices=%d perSlice=%d global=%v child=%v/%s sliceNames=%s", rule.typ, rule.nSlices, rule.perSlice, d.global != "", d.child != "", d.childKey, sliceNaming)
 	r.Logf("config %s shard=%+v", cfg, *rule.shard)
 	if !rule.mycat {
 		d.logical[sqlmini.Key(d.physDB(rule.db), rule.table)] = true
@@ -645,6 +676,13 @@ func runData(r *simkit.Run, prop string) {
 		// decoys: tables with the logical name on the default slice, holding poison
 		decoy := d.store(stripAddr(ns.Slices[0].Master)).Create(d.physDB(rule.db), rule.table, dataCols)
 		decoy.Rows = append(decoy.Rows, []sqlmini.Value{sqlmini.Int(666001), sqlmini.Int(1), sqlmini.Int(1), sqlmini.Str("poison"), sqlmini.Str("2014-05-01")})
+		if d.child != "" {
+			// the same for the linked child table
+			d.logical[sqlmini.Key(d.physDB(rule.db), d.child)] = true
+			d.logical[sqlmini.Key(rule.db, d.child)] = true
+			cd := d.store(stripAddr(ns.Slices[0].Master)).Create(d.physDB(rule.db), d.child, dataCols)
+			cd.Rows = append(cd.Rows, []sqlmini.Value{sqlmini.Int(666001), sqlmini.Int(1), sqlmini.Int(1), sqlmini.Str("poison"), sqlmini.Str("2014-05-01")})
+		}
 	}
 	d.ref.Create(rule.db, rule.table, dataCols).Kinds = dataKinds
 	d.ref.Create(rule.db, "t_plain", dataCols).Kinds = dataKinds
